@@ -1371,14 +1371,9 @@ func gen(g *lp.Gen) {
 			default: // add
 				switch {
 				case r < 14:
-					// (a partial direct write on a unix conn is C01's business: only whole answers there)
-					if c.typ == "unix" {
-						g.P("w %d %d %s", id, 1+g.Intn(60), g.Pick("ok", "ok", "fail"))
-					} else {
-						g.P("w %d %d %s", id, 1+g.Intn(60), g.Pick("ok", "ok", "again", "intr", "fail"))
-					}
+					g.P("w %d %d %s", id, 1+g.Intn(60), g.Pick("ok", "ok", "again", "intr", "fail"))
 				case r < 20:
-					g.P("wv %d %d+%d %s", id, 1+g.Intn(30), g.Intn(30), g.Pick("ok", "again", "fail"))
+					g.P("wv %d %d+%d %s", id, 1+g.Intn(30), g.Intn(30), g.Pick("ok", "again", "intr", "fail"))
 				case r < 26:
 					g.P("sf %d %d %s", id, 1+g.Intn(200), g.Pick("ok", "again", "fail", "intr,ok", "intr,fail"))
 				case r < 38:
